@@ -733,6 +733,15 @@ var helpers = map[string]interface{}{
 	"years":      timeHelper,
 }
 
+// Helpers that work on the value selected by the path they are called on
+var subjectHelpers = map[string]bool{
+	"startsWith": true,
+	"endsWith":   true,
+	"contains":   true,
+	"json":       true,
+	"xml":        true,
+}
+
 // Iterates and evaulates each parameter of a given function call
 func evalParameters(params []*Parameter, obj interface{}) (vs []interface{}, err error) {
 	for _, param := range params {
@@ -808,7 +817,12 @@ func evalPrimary(pri *Primary, obj interface{}) (v interface{}, newObj interface
 			params, err = evalParameters(pri.CallExpression.Parameters, obj)
 			params = append([]interface{}{obj, v}, params...)
 			if helper, ok := helpers[*pri.Helper]; ok {
-				newObj, v = helper.(func(args ...interface{}) (interface{}, interface{}))(params...)
+				if len(result) < 1 && subjectHelpers[*pri.Helper] {
+					// The helper works on the value selected by the path: there is none
+					v = false
+				} else {
+					newObj, v = helper.(func(args ...interface{}) (interface{}, interface{}))(params...)
+				}
 			} else {
 				// Collapse if an undefined helper is invoked
 				collapse = true
